@@ -181,6 +181,60 @@ def cross_process_twin(ctx, n):
     return bad
 
 
+def cross_process_twin_deep(ctx, n):
+    """as cross_process_twin, but what gets replaced is a COMPOUND expression standing in for a variable everywhere in the history:
+    mostly one whose root carries nothing while a sub-term two or three levels down carries a plain annotation with a string-based
+    __hash__ (lib/deepann.py); also root-annotated, floating-point inside, un-annotated.  The history opens with the replacement."""
+    import re
+    from lib import deepann as DA
+    uni = DA.install(L.Universe())
+    w = {"add": 24, "satisfiable": 8, "eval": 16, "batch_eval": 5, "min": 8, "max": 8, "solution": 10, "simplify": 3, "downsize": 4, "branch": 4}
+    kinds = {"deep-annotated": DA.DEEP, "root-annotated": DA.ROOT, "float-inside": DA.FLOAT, "plain": DA.PLAIN}
+    order = ("deep-annotated", "deep-annotated", "root-annotated", "deep-annotated", "float-inside", "deep-annotated", "plain", "deep-annotated")
+    bad, dist = [], {"root_has_annotations": 0, "annotations_only_below_root": 0}
+    for i in range(n):
+        cls = ("SolverReplacement", "SolverReplacement:noauto")[i % 2]
+        v, kind = "xyz"[(i // 2) % 3], order[i % len(order)]
+        e = ctx.rng.choice(kinds[kind][v])
+        dist[kind] = dist.get(kind, 0) + 1
+        root, below = DA.shape(uni.parse(e))
+        dist["root_has_annotations"] += root
+        dist["annotations_only_below_root"] += below and not root
+        sub = lambda t: re.sub(r"\b%s\b" % v, lambda _m: e, t)  # noqa: E731, B023
+        c0 = ctx.rng.randrange(8)
+        hist = [{"s": 0, "op": "add", "cs": ["(%s) == %d" % (e, c0)], "repl": [e, c0]}]
+        if i < 2:
+            hist += [{"s": 0, "op": "eval", "e": e, "n": 40, "extra": []}, {"s": 0, "op": "eval", "e": "%s + 1" % e, "n": 40, "extra": []},
+                     {"s": 0, "op": "max", "e": "%s & 3" % e, "signed": False, "extra": []}, {"s": 0, "op": "solution", "e": e, "v": c0, "extra": []}]
+            cut = 1
+        else:
+            for d in L.gen_history(ctx.rng, ctx.pick(12, 22), weights=w, replace=0.3, replace_any=i % 2 == 1):
+                d = dict(d)
+                for key in ("cs", "es", "extra"):
+                    if key in d:
+                        d[key] = [sub(t) for t in d[key]]
+                if "e" in d:
+                    d["e"] = sub(d["e"])
+                if "repl" in d:
+                    d["repl"] = [sub(d["repl"][0]), d["repl"][1]]
+                if "n" in d:
+                    d["n"] = 40
+                hist.append(d)
+            cut = ctx.rng.randrange(1, max(2, len(hist) - 2))
+        seed = ctx.rng.randrange(1, 2 ** 31)
+        r = DA.differs(cls, hist, cut, seed)
+        ctx.count(len(hist))
+        ctx.distinct("xdeep:%d" % i)
+        if r and not bad and DA.differs(cls, hist, cut, seed + 1):
+            sh, sc = DA.shrink(cls, hist, cut, r[0], seed)
+            r2 = DA.differs(cls, sh, sc, seed)
+            if not r2:
+                sh, sc, r2 = hist, cut, r
+            bad.append({"cls": cls, "hist": sh, "cut": sc, "k": r2[0], "why": r2[1], "kind": kind, "hashseed": seed})
+    ctx.cov["input_distribution"]["fresh-process-replacements(compound, annotated below the root)"] = dict(dist, solver_tuples=n)
+    return bad
+
+
 # expressions whose hash is different in every process (annotations, floating point) next to ordinary ones
 IDENT_SRCS = ["xa", "xa + 1", "xs & 3", "If(ULT(xa, 3), xs, x)", "fa", "fa + FPV(1.5, FSORT_DOUBLE)", "fa == FPV(1.5, FSORT_DOUBLE)",
               "x + 1", "Or(b, x == 7)", "Or(b, xa == 7)", "ZeroExt(1, y) == xs + 1"]
@@ -272,7 +326,9 @@ def run(ctx):
                        "after a random prefix, suffix run and judged in a fresh interpreter with a random PYTHONHASHSEED; (c) random annotated expressions "
                        "(depth <= 4): identity in-process, structure and value table equal in a fresh process; (d) SolverReplacement histories with "
                        "add_replacement(variable, constant) - also CHANGING a replacement after the round trip, when expressions over the variable were asked "
-                       "about before it -: the restored solver tuple runs side by side with the original, answers compared, in-process and (over a variable whose hash differs between processes) in a fresh process; (e) annotated / floating-point "
+                       "about before it -: the restored solver tuple runs side by side with the original, answers compared, in-process and (over a variable whose hash differs between processes; over a compound expression "
+                       "replaced as a whole, whose root carries nothing while a sub-term 2-3 levels down carries a plain annotation with a string-based "
+                       "__hash__ - also root-annotated, floating point inside, plain) in a fresh process; (e) annotated / floating-point "
                        "expressions restored in a fresh process are the object that process builds natively, under the hash it computes")
     tie_ok = True
     try:
@@ -308,6 +364,10 @@ def run(ctx):
                           "%s %s: %s" % (f["cls"], f["hist"][f["k"]], f["why"]),
                           {"cls": f["cls"], "cfg": {"track": False, "reuse": False}, "history": f["hist"], "twin": "restored", "cut": f["cut"],
                            "note": "the restored tuple lives in a fresh interpreter with another PYTHONHASHSEED; the in-process replay shows the calls"})
+        for f in cross_process_twin_deep(ctx, ctx.pick(10, 96))[:2]:
+            ctx.violation("C18/%s/%s/restored-differs:fresh-process:replaced-%s" % (f["cls"], f["hist"][f["k"]]["op"], f["kind"]),
+                          "%s, pickled after %d calls of %s: call %s: %s" % (f["cls"], f["cut"], json.dumps(f["hist"][:f["cut"]]), f["hist"][f["k"]], f["why"]),
+                          {"deep_twin": {"cls": f["cls"], "hist": f["hist"], "cut": f["cut"], "hashseed": f["hashseed"]}})
     except RuntimeError as e:
         ctx.tie_broken("fresh-process", str(e)[:400])
         xf = []
@@ -361,6 +421,20 @@ def run(ctx):
 
 def replay(ctx, obj):
     r = obj["replay"]
+    if "deep_twin" in r:
+        from lib import deepann as DA
+        t = r["deep_twin"]
+        for k, d in enumerate(t["hist"]):
+            print("  %s%s" % ("[dump here, load in a fresh interpreter] " if k == t["cut"] else "", json.dumps(d)))
+        bad = 0
+        for seed in (t["hashseed"], t["hashseed"] + 1):
+            f = DA.differs(t["cls"], t["hist"], t["cut"], seed)
+            print("PYTHONHASHSEED=%d: %s" % (seed, "call %d: %s" % f if f else "restored answers like the original"))
+            bad += bool(f)
+        if bad == 2:
+            print("VIOLATION property=C18 replay=(given)")
+            return 1
+        return 0
     if "expr" in r and "history" not in r:
         uni = L.Universe()
         try:
